@@ -428,3 +428,86 @@ def unwrap_namedtuples(tree: ast.Module) -> int:
         ast.fix_missing_locations(tree)
         n_done += 1
     return n_done
+
+
+# ------------------------------------------------------------------------------------------------ inline_expr_helpers
+def _single_return_expr(f: ast.FunctionDef):
+    body = [b for b in f.body if not (isinstance(b, ast.Expr) and isinstance(b.value, ast.Constant))]
+    if len(body) == 1 and isinstance(body[0], ast.Return) and body[0].value is not None:
+        return body[0].value
+    return None
+
+
+def inline_expr_helpers(modules: dict, ref: dict) -> int:
+    """A module-level private function that the reference tree does not have and whose body is `return <expr>` (an expression factored out of
+    several places, possibly used from a sibling module through `from m import _h`) is substituted back at every call."""
+    n_done = 0
+    new_helpers = {}  # (module name, function name) -> FunctionDef
+    for m in modules.values():
+        r = ref.get(m.relpath)
+        if not r or r.get("__digest__") == m.digest:
+            continue
+        rp = set(r.get("__funcs__", {}))
+        for f in [x for x in m.tree.body if isinstance(x, ast.FunctionDef)]:
+            a = f.args
+            if _is_new_private(f.name, f.name, rp) and not f.decorator_list and not (a.vararg or a.kwarg or a.posonlyargs or a.kwonlyargs) \
+                    and _single_return_expr(f) is not None and not any(isinstance(x, (ast.Lambda, ast.Yield, ast.Await, ast.NamedExpr)) for x in ast.walk(f)):
+                new_helpers[(m.name, f.name)] = f
+    if not new_helpers:
+        return 0
+    used = set()
+    for m in modules.values():
+        visible = {fn: (mn, fn) for (mn, fn) in new_helpers if mn == m.name}
+        for st in m.tree.body:
+            if isinstance(st, ast.ImportFrom) and st.module:
+                for al in st.names:
+                    if (st.module, al.name) in new_helpers:
+                        visible[al.asname or al.name] = (st.module, al.name)
+        if not visible:
+            continue
+
+        class T(ast.NodeTransformer):
+            def visit_Call(self, node):
+                self.generic_visit(node)
+                if isinstance(node.func, ast.Name) and node.func.id in visible:
+                    h = new_helpers[visible[node.func.id]]
+                    params = [x.arg for x in h.args.args]
+                    if any(k.arg is None for k in node.keywords) or any(isinstance(x, ast.Starred) for x in node.args):
+                        return node
+                    binding = dict(zip(params, node.args))
+                    for k in node.keywords:
+                        binding[k.arg] = k.value
+                    for name, d in zip(params[len(params) - len(h.args.defaults):], h.args.defaults):
+                        binding.setdefault(name, d)
+                    if set(binding) != set(params):
+                        return node
+                    expr = _single_return_expr(h)
+                    for pn, v in binding.items():
+                        uses = sum(1 for x in ast.walk(expr) if isinstance(x, ast.Name) and x.id == pn)
+                        simple = isinstance(v, (ast.Name, ast.Constant)) or (isinstance(v, ast.Attribute) and isinstance(v.value, ast.Name))
+                        if uses > 1 and not simple:
+                            return node
+                    used.add(visible[node.func.id])
+                    return ast.copy_location(_Subst(binding).visit(copy.deepcopy(expr)), node)
+                return node
+        for f in [x for x in ast.walk(m.tree) if isinstance(x, ast.FunctionDef)]:
+            if (m.name, f.name) in new_helpers and new_helpers[(m.name, f.name)] is f:
+                continue
+            T().visit(f)
+        ast.fix_missing_locations(m.tree)
+    # drop helpers that are referenced nowhere any more (value position)
+    for (mn, fn) in used:
+        still = False
+        for m in modules.values():
+            for n in ast.walk(m.tree):
+                if isinstance(n, ast.Name) and n.id == fn and isinstance(n.ctx, ast.Load):
+                    still = True
+        if not still:
+            mod = next(m for m in modules.values() if m.name == mn)
+            mod.tree.body = [st for st in mod.tree.body if st is not new_helpers[(mn, fn)]]
+            for m in modules.values():
+                for st in m.tree.body:
+                    if isinstance(st, ast.ImportFrom) and st.module == mn:
+                        st.names = [al for al in st.names if al.name != fn] or st.names
+            n_done += 1
+    return n_done
